@@ -69,6 +69,28 @@ Theorem C18_ignored_result_not_fail_closed :
 Proof. exact ignored_result_not_fail_closed. Qed.
 Print Assumptions C18_ignored_result_not_fail_closed.
 
+(* stateful contexts (SM2_SIGN_CTX / SM2_ENC_CTX): a pool of pre-computed nonces refilled when empty.  A failed
+   refill leaves the pool marked empty, hence over any number of attempts on one context, with the source
+   failing at arbitrary draws, no draw is used as nonce twice *)
+Theorem C18_failed_refill_marks_pool_empty : forall POOL fails st,
+  live st = 0 -> fst (sign_step POOL fails false st) = None -> POOL <> 0 ->
+  live (snd (sign_step POOL fails false st)) = 0.
+Proof. exact failed_refill_marks_pool_empty. Qed.
+Print Assumptions C18_failed_refill_marks_pool_empty.
+
+Theorem C18_pool_no_reuse : forall POOL fails n s0,
+  let st := sign_many POOL fails false n (mkP s0 0 0 []) in NoDup (used st).
+Proof. exact pool_no_reuse. Qed.
+Print Assumptions C18_pool_no_reuse.
+
+(* the order matters: marking the pool full before the fallible refill re-uses draw 1 *)
+Theorem C18_marking_before_refill_reuses_a_nonce :
+  let fails := fun d => Nat.eqb d 3 in
+  used (sign_many 2 fails true 5 (mkP (fun _ => 0) 0 0 [])) = [2; 1; 0; 1] /\
+  used (sign_many 2 fails false 5 (mkP (fun _ => 0) 0 0 [])) = [4; 5; 0; 1].
+Proof. exact marking_before_refill_reuses_a_nonce. Qed.
+Print Assumptions C18_marking_before_refill_reuses_a_nonce.
+
 (* table side: on ANY table for which the decidable row predicate holds, the status of every call
    of an entropy-dependent function is used by its caller *)
 Theorem C18_rand_table_sound : forall tbl : list rand_site,
